@@ -124,7 +124,13 @@ GenC11Init ==
       /\ (k \in {"unary", "client"} => nresp = 1 /\ o.after = 0)
       /\ InitWith(Mk(p, k, codec, http, <<"none", <<>>>>, 0, <<>>, 0, rh, <<M(1, 3)>>, sh, st,
                      SubSeq(<<M(101, 3), M(102, 2)>>, 1, nresp), o))
-GenC11Spec == GenC11Init /\ [][FALSE]_vars
+\* the codec refuses a response message (the first one, or a later one) after the handler set its metadata: the
+\* failure still ends the response properly and the metadata is in the client's error
+GenC11BadSendInit ==
+  \E p \in Protos, k \in {"server", "bidi"}, a \in {0, 1}, sh \in HdrSets, st \in TrlSets :
+    InitWith(Mk(p, k, "verifc", 2, <<"none", <<>>>>, 0, <<>>, 0, <<>>, <<M(1, 3)>>, sh, st, <<M(101, 3), M(102, 0)>>,
+                [kind |-> "badsend", code |-> 13, msg |-> "library", ndet |-> 0, meta |-> <<>>, after |-> a]))
+GenC11Spec == (GenC11Init \/ GenC11BadSendInit) /\ [][FALSE]_vars
 
 (* C05, converse: a conformant foreign server (the reference codec) under every combination of the encoder's
    freedoms; the real client must decode to the values the program supplied *)
